@@ -13,7 +13,7 @@ META = {
  "C10": ("other", "wiring provenance + action-list counting + compile-fail witnesses", "Decides: at most one event send per action list; Follow_Up/Delay_Resp/Pdelay_Resp echo ids and requester identity from the triggering context; one sequence generator per message type, wrapping increment; every frame is a sub-slice of the fixed packet buffer; own identity/domain/sdoId wiring. Timestamp arithmetic exactness not decided.", "Trusted: rustc MIR and borrow checker (witnesses)."),
  "C11": ("other", "field-to-field wiring tables", "Decides: each Announce field/flag is copied from the data-set field IEEE 13.5 prescribes; S1 and M1/M2 updates write each data-set field from the prescribed source incl. stepsRemoved+1 / 0; Announce is built from live state at send time; time_properties() inverts the flag wiring. Timing ('next Announce') not decided.", "Trusted: engine/spec/announce_wiring.json; rustc MIR."),
  "C12": ("other", "FSM extraction + timer pairing on all paths", "Decides: every port-state transition site is paired with the timer requests its target state needs on every path to the return (directly or through pending_action); periodic senders re-arm their own timer on every feasible return path; the initial receipt timer exists. Liveness over time not decided.", "Trusted: timer contract table in engine/spec/fsm.json; rustc MIR."),
- "C13": ("other", "who-may-call + dataflow through the clamp", "Decides: every set_frequency argument in the Kalman servo is 0.0 or current + clamp_adjustment(current, _, max_freq_offset); step only on the >= threshold branch with the negated offset; only filters call clock steering; demobilize consumes the filter and reaches <=1 set_frequency. Finiteness (NaN) not decided.", "Trusted: rustc MIR."),
+ "C13": ("other", "who-may-call + dataflow through the clamp", "Decides: every set_frequency argument in the Kalman servo is 0.0 or current + clamp_adjustment(current, _, max_freq_offset); step only on the >= threshold branch with the negated offset; only filters call clock steering; demobilize consumes the filter and reaches <=1 set_frequency; a servo without an offset sample cannot command the clock; every clock command of both filters is constant, finite by type, or dominated by an is_finite() check (finiteness as sanitizer dominance, not numerics).", "Trusted: rustc MIR."),
  "C14": ("other", "FSM extraction + control dependence on responder identity", "Decides: Faulty is entered only on a responder-identity mismatch for the current request and without touching measurement state; Faulty is left only at the single-responder recovery site (other exits are known findings); faulty ports fail every emitter guard; peer-delay formula operand wiring; stores into PeerDelayState are gated on the id match.", "Trusted: rustc MIR; engine/spec/formulas.json."),
  "C15": ("other", "control dependence + sibling agreement (MIR and HIR)", "Decides: ForwardTLV only under announce_propagate(); the propagate range table equals IEEE Table 52; every TLV append in send_announce is gated on margin and sender and paired with the margin decrement; the loop check precedes every effect; provider contract vs library assertion; minimum TLV size agrees across builder/parsers; both daemon port tasks use the forwarder alike.", "Trusted: rustc MIR/HIR."),
  "C16": ("other", "cast/shift ledger + type-derived scale agreement", "Decides two clauses: (no silent wrap) every narrowing cast / wrapping / saturating conversion in the time modules is range-discharged or listed; (scale) shift amounts equal the difference of the fixed-point types' fractional bits and the 10^9/10^6/10^3 constants agree across sibling conversions. Exactness of results is numeric and not decided.", "Trusted: rustc MIR; typenum arguments of the fixed types."),
